@@ -130,13 +130,17 @@ var errChildHung = errors.New("child watchdog")
 // a verdict (a firing watchdog is inconclusive).
 const caseWatchdog = 120 * time.Second
 
+// childExtraEnv is added to the environment of every child started while it is
+// set (Go runtime settings for the runtime-settings stage).
+var childExtraEnv []string
+
 func startChild() (*childProc, error) {
 	exe, err := os.Executable()
 	if err != nil {
 		exe = os.Args[0]
 	}
 	cmd := exec.Command(exe)
-	cmd.Env = append(os.Environ(), childEnv+"=1", "GOTRACEBACK=single")
+	cmd.Env = append(append(os.Environ(), childEnv+"=1", "GOTRACEBACK=single"), childExtraEnv...)
 	c := &childProc{cmd: cmd, stderr: &tailBuf{}, lines: make(chan []byte, 4)}
 	cmd.Stderr = c.stderr
 	if c.stdin, err = cmd.StdinPipe(); err != nil {
